@@ -1,6 +1,7 @@
 import WsProofs.Props.TieHdr
 import WsProofs.Props.C18
 import WsModel.CodecM
+import WsProofs.Props.TieFrame
 
 /-! C18 stated directly for the machine translation of `FrameHeader::{parse, format}`
 (`WsModel/Generated/HdrGen.lean`, regenerated from `/repo` on every run): the headline statements
@@ -119,6 +120,33 @@ theorem C18_gen_codec_leaf (buf : Bytes) (pos : Nat) (out : Bytes) :
     rw [hq] at hr
     refine ⟨by rw [hr]; rfl, fun x hx => ?_⟩
     cases hx
+
+/-- the two translated frame encoders (`Frame::format` into a fresh vector, `Frame::format_into_buf`
+behind whatever the write buffer already holds) emit identical bytes, neither fails, and the
+translated `Frame::len` is the number of bytes either emits -/
+theorem C18_gen_encoders_agree (f : Frame) (buf : Bytes) :
+    (GenFrame.formatIntoBuf f buf).1 = buf ++ (GenFrame.format f []).1 ∧
+    (GenFrame.formatIntoBuf f buf).2 = .ok () ∧ (GenFrame.format f []).2 = .ok () ∧
+    GenFrame.len f buf = (buf, .ok (GenFrame.format f []).1.length) := by
+  rw [Tie_frame_formatIntoBuf, Tie_frame_format, Tie_frame_len]
+  obtain ⟨h1, h2⟩ := C18_encoders_agree f buf
+  refine ⟨?_, rfl, rfl, ?_⟩
+  · show f.formatIntoBuf buf = buf ++ ([] ++ f.format)
+    rw [List.nil_append]; exact h1
+  · show (buf, Res.ok f.len) = (buf, Res.ok ([] ++ f.format).length)
+    rw [List.nil_append, h2]
+
+/-- a frame written by the translated in-place encoder starts with the bytes the translated
+header encoder writes for its header and payload length -/
+theorem C18_gen_frame_starts_with_header (f : Frame) :
+    ∃ body, (GenFrame.format f []).1 = encode f.header f.payload.length ++ body ∧
+      body.length = f.payload.length := by
+  rw [Tie_frame_format, C18_gen_encode_eq]
+  simp only [List.nil_append]
+  unfold Frame.format
+  cases f.header.mask with
+  | none => exact ⟨f.payload, rfl, rfl⟩
+  | some m => exact ⟨applyMask m f.payload, rfl, WsProofs.C18.applyMask_length m f.payload⟩
 
 /-- non-vacuity: a masked binary header with a 16-bit length, behind two foreign bytes -/
 def exH : Header :=
